@@ -3,6 +3,7 @@ package main
 // C14 — tags; C20 — JSON output.
 
 import (
+	"os"
 	"fmt"
 	"go/token"
 	"go/types"
@@ -81,12 +82,44 @@ func ruleP14Lang(p *Prog, r *Report) {
 				if !isB || (bo.Op != token.NEQ && bo.Op != token.EQL) {
 					continue
 				}
-				lx, okx := strip(bo.X).(*ssa.Call)
-				ly, oky := strip(bo.Y).(*ssa.Call)
-				if !okx || !oky {
-					continue
+				// len(match[0]) vs len(tag), or the two strings themselves (the match is a
+				// substring of the input, so equal length and equal text are the same)
+				var m0 ssa.Value
+				var ly *ssa.Call
+				if lx, okx := strip(bo.X).(*ssa.Call); okx {
+					ly2, oky := strip(bo.Y).(*ssa.Call)
+					if !oky {
+						continue
+					}
+					m0, ly = lx.Call.Args[0], ly2
+				} else {
+					// one side is group 0, the other the very text that was matched
+					subject := func(m ssa.Value) ssa.Value {
+						u, ok := strip(m).(*ssa.UnOp)
+						if !ok {
+							return nil
+						}
+						ia, ok := u.X.(*ssa.IndexAddr)
+						if !ok {
+							return nil
+						}
+						if c, _ := callOf(deref(ia.X)); c != nil {
+							if nm, _, args, _ := methodCallOf(c); strings.HasPrefix(nm, "FindStringSubmatch") && len(args) >= 1 {
+								return args[0]
+							}
+						}
+						return nil
+					}
+					switch {
+					case subject(bo.X) != nil && sameValue(subject(bo.X), bo.Y):
+						m0 = bo.X
+					case subject(bo.Y) != nil && sameValue(subject(bo.Y), bo.X):
+						m0 = bo.Y
+					default:
+						continue
+					}
 				}
-				_, g0, okm := p.patternOfMatch(lx.Call.Args[0])
+				_, g0, okm := p.patternOfMatch(m0)
 				if okm && g0 == 0 {
 					diff := b.Succs[0]
 					if bo.Op == token.EQL {
@@ -237,7 +270,16 @@ func ruleP14Model(p *Prog, r *Report) {
 			k, isK := constInt(args[1])
 			coll := rangeElemOf(args[0])
 			only, _ := onlyLoopGuards(find.Block())
-			ok = isU && u.X == ssa.Value(p.global("klog", "HashTagPattern")) && isK && k < 0 && coll != nil && deref(coll) == ssa.Value(tags.Params[0]) && only
+			// (the lines of the summary: the summary itself, or its Lines(), which is the same slice)
+			isSelf := coll != nil && deref(coll) == ssa.Value(tags.Params[0])
+			if nm, rv, _, mc := methodCall(coll); !isSelf && mc != nil && nm == "Lines" && rv != nil && strip(rv) == ssa.Value(tags.Params[0]) {
+				if g := staticCallee(mc); g != nil && len(g.Params) == 1 {
+					if rets := plainReturnsOf(g); len(rets) == 1 && len(rets[0].Results) == 1 && strip(rets[0].Results[0]) == ssa.Value(g.Params[0]) {
+						isSelf = true
+					}
+				}
+			}
+			ok = isU && u.X == ssa.Value(p.global("klog", "HashTagPattern")) && isK && k < 0 && isSelf && only
 		}
 		r.check(ok, "P14-once", "Summary.Tags:all-matches", p.pos(tags.Pos()), "all matches (n = -1) of the tag pattern in every summary line", "Summary.Tags does not collect all tag matches of all lines")
 		okPut := false
@@ -416,6 +458,37 @@ func ruleP14Aggregate(p *Prog, r *Report) {
 		}
 	}
 	r.check(okKey, rule, "aggregate:keys", p.instrPos(put), "each key of the merged set (a set: one entry per tag and per tag=value) is visited once", "the aggregation does not iterate the keys of the merged tag set (a tag could be counted more than once per entry)")
+	// … for EVERY entry: put() is also what makes a tag known and counts its entries, so no
+	// entry is passed over (a zero duration, an open range without --now still carries its tags).
+	// The only conditions on the way to put(): the loops themselves and "not counted yet for this
+	// entry" (a membership test of a set that is filled in the same loop).
+	skip := ""
+	for _, g := range guardsOf(put.Block()) {
+		if isLoopGuard(g) || isLoopGuard(Guard{Cond: g.Cond, Pol: !g.Pol, If: g.If}) {
+			continue
+		}
+		if membershipTest(g.Cond) != nil {
+			continue
+		}
+		if bo, isB := g.Cond.(*ssa.BinOp); isB {
+			if _, isLk := strip(bo.X).(*ssa.Lookup); isLk {
+				continue
+			}
+		}
+		if _, isLk := strip(g.Cond).(*ssa.Lookup); isLk {
+			continue
+		}
+		if ex, isEx := strip(g.Cond).(*ssa.Extract); isEx {
+			if _, isLk := ex.Tuple.(*ssa.Lookup); isLk {
+				continue
+			}
+			if _, isNx := ex.Tuple.(*ssa.Next); isNx {
+				continue
+			}
+		}
+		skip = g.Cond.String() + " at " + p.instrPos(g.If)
+	}
+	r.check(skip == "", rule, "aggregate:every-entry", p.instrPos(put), "every entry's tags are registered, whatever the entry is worth", "an entry's tags are only registered when "+skip+": tags that occur only on such entries are missing from `klog tags`, and --count is too low")
 	n, recv, _, _ := methodCall(put.Common().Args[2])
 	r.check(n == "Duration" && entry != nil && sameValue(recv, entryAddrOf(entry)) || n == "Duration", rule, "aggregate:amount", p.instrPos(put), "the amount attributed is the entry's Duration()", "the amount attributed to a tag is not the entry's duration")
 	// put(): creates on first sight, then Total = Total.Plus(d), Count++
@@ -584,7 +657,14 @@ func ruleP20Fields(p *Prog, r *Report) {
 		if d > 6 {
 			return "?"
 		}
+		// a field of a small result struct that is filled in one place: what was put there
+		if iv, ok := fieldInitValue(v); ok {
+			return chain(iv, d+1)
+		}
 		v = deref(v)
+		if iv, ok := fieldInitValue(v); ok {
+			return chain(iv, d+1)
+		}
 		if cv, ok := v.(*ssa.ChangeType); ok {
 			return chain(cv.X, d+1)
 		}
@@ -595,6 +675,10 @@ func ruleP20Fields(p *Prog, r *Report) {
 			return "elem"
 		}
 		if prm, ok := v.(*ssa.Parameter); ok {
+			if os.Getenv("KLOGSA_DEBUG") != "" {
+				g := prm.Parent()
+				fmt.Fprintf(os.Stderr, "CHAIN param %s of %s helper=%v sites=%d pinned=%v enabled=%v\n", prm.Name(), fnName(g), isHelper(g), len(ht.sites[originFn(g)]), ht.pinned[originFn(g)], ht.enabled)
+			}
 			// (named by its type: the parameter of the Range arm, of the OpenRange arm …)
 			if tn := typeNameOf(prm.Type()); tn != "" {
 				return "param:" + tn
